@@ -120,6 +120,35 @@ Theorem C05_failure_after_write_refuted :
 Proof. exact failure_after_write_refuted. Qed.
 Print Assumptions C05_failure_after_write_refuted.
 
+(* (3) PDUs that never reach execute.  The theorems above assume [decode_attrs w = Ok r]; these two say
+   exactly when that holds (FC16: the PDU carries 2*quantity data bytes; FC23: the byte count rounded up to
+   words), and the witness shows a PDU outside it whose header fields demand exception 03 (quantity 3, byte
+   count 4, four data bytes): decode raises struct.error, nothing is answered.  PDUs with legal, consistent
+   header fields but truncated data are malformed frames and are not constrained by this property. *)
+Theorem C05_decodable_iff_fc16 : forall a n bc data,
+  (exists r, decode_attrs (WWriteRegs a n bc data) = Ok r) <-> (2 * Z.to_nat n <= length data)%nat.
+Proof. exact decodable_iff_regs. Qed.
+Print Assumptions C05_decodable_iff_fc16.
+
+Theorem C05_decodable_iff_fc23 : forall ra rn wa wn wbc data,
+  (exists r, decode_attrs (WRWM ra rn wa wn wbc data) = Ok r) <-> (2 * Z.to_nat ((wbc + 1) / 2) <= length data)%nat.
+Proof. exact decodable_iff_rwm. Qed.
+Print Assumptions C05_decodable_iff_fc23.
+
+Theorem C05_short_register_data_refuted :
+  let w := WWriteRegs 0 3 4 [0; 1; 0; 2] in
+  decode_attrs w = Raise StructError /\ forall s, spec_outcome s w = Some 3.
+Proof. exact short_register_data_refuted. Qed.
+Print Assumptions C05_short_register_data_refuted.
+
+(* a byte count larger than the data carried (5, 6, 255, ... with 4 data bytes) is decoded, reaches
+   execute and is answered with exception 03 *)
+Theorem C05_byte_count_beyond_data_is_03 : forall bc, bc <> 4 ->
+  let w := WWriteRegs 0 2 bc [0; 1; 0; 2] in
+  exists r, decode_attrs w = Ok r /\ snd (serve XC std (ctx1 0) r) = Exc 144 3.
+Proof. exact byte_count_beyond_data_is_03. Qed.
+Print Assumptions C05_byte_count_beyond_data_is_03.
+
 Example C05_nonvacuous :
   inv (ctx1 0) /\
   (* quantity limit: 2000 coils is legal (address error here), 2001 is a value error *)
